@@ -113,6 +113,7 @@ type universe struct {
 	// every 10th account is a contract that never gets a storage slot of its own (its
 	// balance lives in the token contract's storage): code, nonce and balance only
 	codeOnly map[int]bool
+	subset   []int // when set, mutate only touches these accounts (disjoint sibling states)
 	addrs    []common.Address
 	keys     [][]byte
 	vals     [][]byte
@@ -197,6 +198,9 @@ func mutate(s *account.AccountDB, u *universe, rng *rand.Rand, n int, sharing bo
 	kinds := map[string]int{}
 	for i := 0; i < n; i++ {
 		ai := rng.Intn(len(u.addrs))
+		if u.subset != nil {
+			ai = u.subset[rng.Intn(len(u.subset))]
+		}
 		a := u.addrs[ai]
 		if u.codeOnly[ai] {
 			switch r := rng.Intn(100); {
@@ -438,6 +442,18 @@ func reopen(mem *db.MemDatabase, root rootInfo, u *universe) (present, resolvabl
 	return
 }
 
+// sibPlan: after the parent block is committed and persisted, n sibling states are built on the
+// parent root through real AccountDBs and AccountDB.Commit-ed in order 0..n-1 (their nodes enter the
+// shared NodeDatabase memory layer); then NodeDatabase.Commit is called for the roots in the order
+// persist (an index may repeat: a retry).  variant 0: siblings touch disjoint accounts, 1: the same
+// accounts, 2: siblings 0 and 1 are identical (one root).  failFirst: the first physical write of
+// the persist phase returns an error (the process goes on with the next entry of persist).
+type sibPlan struct {
+	n, variant int
+	persist    []int
+	failFirst  bool
+}
+
 func main() {
 	out := flag.String("out", "trace.ndjson", "trace file")
 	scratch := flag.String("scratch", "", "scratch directory (cwd of the process)")
@@ -448,6 +464,7 @@ func main() {
 	nKeys := flag.Int("keys", 14, "storage keys per account")
 	salt := flag.Int64("salt", 0, "seed salt (shard)")
 	faultRuns := flag.Int("faultruns", 0, "for the first N histories: re-run once per physical write with that write returning an error")
+	siblingRuns := flag.Int("siblingruns", 0, "for the first N histories: sibling states on one parent, persisted in every order")
 	corrupt := flag.String("corrupt", "", "sensitivity exercise: child (drop a logged child id) | content (flip a reopen verdict)")
 	flag.Parse()
 	if *scratch == "" {
@@ -465,7 +482,7 @@ func main() {
 	account.Init()
 	tr := vutil.NewTrace(outAbs)
 	totalWrites, totalNodes, totalReopens, maxBatches, nAborted := 0, 0, 0, 0, 0
-	nFailed, nAfterFailure := 0, 0
+	nFailed, nAfterFailure, nSiblingPersists := 0, 0, 0
 	kindsAll := map[string]int{}
 	// runHistory executes one history (the same one for the same h: its randomness derives from
 	// (VERIF_SEED, salt, h)) and emits its events.
@@ -475,7 +492,7 @@ func main() {
 	//               is built on top of the root whose commit failed and committed.  Roots whose commit
 	//               reported success are re-opened from the store after every reported success.
 	// It returns the number of physical writes attempted.
-	runHistory := func(h int, failAt int, retry bool) int {
+	runHistory := func(h int, failAt int, retry bool, sib *sibPlan) int {
 		rng := vutil.Rng(3000 + *salt*100003 + int64(h))
 		sharing := h%2 == 1 || *histories == 1
 		u := mkUniverse(rng, *nAcc, *nKeys)
@@ -499,8 +516,59 @@ func main() {
 		crash, _ := db.NewMemDatabase() // holds exactly the writes replayed so far
 		prev := common.Hash{}
 		done := 0
+		// absorb: replay the writes made since the last call into `crash` (the store a restart would
+		// find); without a fault every prefix is a crash point: every root so far is re-opened after
+		// every write; a reported success is recorded and, in fault runs, followed by a re-opening.
+		absorb := func(committedOK bool, root common.Hash) {
+			// every prefix of the write sequence: replay it into `crash` and re-open every root so far
+			for ; done < len(rec.log); done++ {
+				w := &rec.log[done]
+				if w.kind == "failed" {
+					nFailed++
+					steps = append(steps, step{w: w})
+					continue
+				}
+				for _, e := range w.kvs {
+					if w.kind == "delete" {
+						crash.Delete(e.k)
+					} else {
+						crash.Put(e.k, e.v)
+					}
+				}
+				st := step{w: w}
+				for j, ri := range roots {
+					if failAt > 0 {
+						break // fault runs re-open after every reported success instead (below)
+					}
+					present, resolvable, contentOK, pairs, why := reopen(crash, ri, u)
+					if *corrupt == "content" && present && (done+j)%5 == 0 {
+						contentOK = false
+					}
+					st.reopens = append(st.reopens, reopened{ri.hash, j + 1, present, resolvable, contentOK, pairs, why})
+					totalReopens++
+				}
+				steps = append(steps, st)
+			}
+			if committedOK {
+				r := root
+				steps = append(steps, step{committed: &r})
+				if failAt > 0 {
+					st := step{}
+					for j, ri := range roots {
+						present, resolvable, contentOK, pairs, why := reopen(crash, ri, u)
+						st.reopens = append(st.reopens, reopened{ri.hash, j + 1, present, resolvable, contentOK, pairs, why})
+						totalReopens++
+					}
+					steps = append(steps, st)
+				}
+			}
+		}
 		aborted := ""
-		for b := 0; b < *blocks && aborted == ""; b++ {
+		nblocks := *blocks
+		if sib != nil {
+			nblocks = 1 // the parent; the siblings follow below
+		}
+		for b := 0; b < nblocks && aborted == ""; b++ {
 			// a failure of the real code to continue from its own committed state is an
 			// observation (event Aborted), the writes so far are still judged
 			s, err := account.NewAccountDB(prev, adb)
@@ -549,50 +617,83 @@ func main() {
 			if committedOK {
 				roots = append(roots, rootInfo{root, snap})
 			}
-			// every prefix of the write sequence: replay it into `crash` and re-open every root so far
-			for ; done < len(rec.log); done++ {
-				w := &rec.log[done]
-				if w.kind == "failed" {
-					nFailed++
-					steps = append(steps, step{w: w})
-					continue
-				}
-				for _, e := range w.kvs {
-					if w.kind == "delete" {
-						crash.Delete(e.k)
-					} else {
-						crash.Put(e.k, e.v)
-					}
-				}
-				st := step{w: w}
-				for j, ri := range roots {
-					if failAt > 0 {
-						break // fault runs re-open after every reported success instead (below)
-					}
-					present, resolvable, contentOK, pairs, why := reopen(crash, ri, u)
-					if *corrupt == "content" && present && (done+j)%5 == 0 {
-						contentOK = false
-					}
-					st.reopens = append(st.reopens, reopened{ri.hash, j + 1, present, resolvable, contentOK, pairs, why})
-					totalReopens++
-				}
-				steps = append(steps, st)
-			}
-			if committedOK {
-				r := root
-				steps = append(steps, step{committed: &r})
-				if failAt > 0 {
-					st := step{}
-					for j, ri := range roots {
-						present, resolvable, contentOK, pairs, why := reopen(crash, ri, u)
-						st.reopens = append(st.reopens, reopened{ri.hash, j + 1, present, resolvable, contentOK, pairs, why})
-						totalReopens++
-					}
-					steps = append(steps, st)
-				}
-			}
+			absorb(committedOK, root)
 			if aborted == "" {
 				prev = root // also after a reported failure: the node builds the next block on what it has in memory
+			}
+		}
+		if sib != nil && aborted == "" {
+			type sibling struct {
+				root common.Hash
+				snap []acctSnap
+			}
+			sibs := make([]sibling, 0, sib.n)
+			func() {
+				defer func() {
+					if p := recover(); p != nil {
+						aborted = fmt.Sprintf("siblings: panic: %v", p)
+					}
+				}()
+				for i := 0; i < sib.n; i++ {
+					s, err := account.NewAccountDB(prev, adb)
+					if err != nil {
+						aborted = fmt.Sprintf("sibling %d: NewAccountDB: %v", i, err)
+						return
+					}
+					seedOf := i
+					if sib.variant == 2 && i == 1 {
+						seedOf = 0 // identical to sibling 0
+					}
+					srng := vutil.Rng(7000 + *salt*100003 + int64(h)*17 + int64(seedOf))
+					u.subset = nil
+					if sib.variant == 0 {
+						for a := i; a < len(u.addrs); a += sib.n {
+							u.subset = append(u.subset, a)
+						}
+					}
+					for k, v := range mutate(s, u, srng, *muts/3, sharing) {
+						kindsAll[k] += v
+					}
+					u.subset = nil
+					s.IntermediateRoot(true)
+					snap := snapshot(s, u)
+					root, err := s.Commit(true) // into the shared memory layer, nothing persisted yet
+					if err != nil {
+						aborted = fmt.Sprintf("sibling %d: AccountDB.Commit: %v", i, err)
+						return
+					}
+					sibs = append(sibs, sibling{root, snap})
+				}
+			}()
+			if sib.failFirst {
+				rec.failAt = rec.nWrites + 1
+			}
+			reported := map[common.Hash]bool{}
+			for _, i := range sib.persist {
+				if aborted != "" || i >= len(sibs) {
+					break
+				}
+				var err error
+				func() {
+					defer func() {
+						if p := recover(); p != nil {
+							aborted = fmt.Sprintf("persist sibling %d: panic: %v", i, p)
+						}
+					}()
+					err = adb.TrieDB().Commit(sibs[i].root, false)
+				}()
+				if err != nil && err != errInjected {
+					aborted = fmt.Sprintf("persist sibling %d: %v", i, err)
+				}
+				ok := aborted == "" && err == nil
+				if ok && !reported[sibs[i].root] {
+					reported[sibs[i].root] = true
+					roots = append(roots, rootInfo{sibs[i].root, sibs[i].snap})
+					nSiblingPersists++
+				} else if ok {
+					ok = false // already recorded as durable (identical sibling / second call)
+				}
+				absorb(ok, sibs[i].root)
 			}
 		}
 		// number the nodes in write order, then emit
@@ -682,15 +783,30 @@ func main() {
 		return rec.nWrites
 	}
 	for h := 0; h < *histories; h++ {
-		n := runHistory(h, 0, false)
+		n := runHistory(h, 0, false, nil)
 		if h < *faultRuns {
 			// the same history again, once per physical write, with that write failing
 			for k := 1; k <= n; k++ {
-				runHistory(h, k, k%2 == 0)
+				runHistory(h, k, k%2 == 0, nil)
 			}
+		}
+		if h < *siblingRuns {
+			// sibling states on one parent sharing the memory layer, persisted in every order
+			for variant := 0; variant < 3; variant++ {
+				for _, perm := range [][]int{{0, 1}, {1, 0}} {
+					runHistory(h, 0, false, &sibPlan{n: 2, variant: variant, persist: perm})
+				}
+			}
+			for _, perm := range [][]int{{0, 1, 2}, {0, 2, 1}, {1, 0, 2}, {1, 2, 0}, {2, 0, 1}, {2, 1, 0}} {
+				runHistory(h, 0, false, &sibPlan{n: 3, variant: 1 + h%2, persist: perm})
+			}
+			// the persist of one sibling fails on its first write, another sibling is persisted, the first is retried
+			runHistory(h, 0, false, &sibPlan{n: 2, variant: 1, persist: []int{0, 1, 0}, failFirst: true})
+			runHistory(h, 0, false, &sibPlan{n: 2, variant: 1, persist: []int{1, 0, 1}, failFirst: true})
+			runHistory(h, 0, false, &sibPlan{n: 2, variant: 0, persist: []int{1, 0, 1}, failFirst: true})
 		}
 	}
 	tr.Close()
-	fmt.Printf("c03: histories=%d writes=%d nodes=%d reopens=%d maxBatchesPerCommit=%d aborted=%d failedWrites=%d successAfterFailure=%d events=%d kinds=%v\n",
-		*histories, totalWrites, totalNodes, totalReopens, maxBatches, nAborted, nFailed, nAfterFailure, tr.N, kindsAll)
+	fmt.Printf("c03: histories=%d writes=%d nodes=%d reopens=%d maxBatchesPerCommit=%d aborted=%d failedWrites=%d successAfterFailure=%d siblingPersists=%d events=%d kinds=%v\n",
+		*histories, totalWrites, totalNodes, totalReopens, maxBatches, nAborted, nFailed, nAfterFailure, nSiblingPersists, tr.N, kindsAll)
 }
